@@ -245,6 +245,10 @@ def run(ctx):
     # creator's 100 without a power-levels event, the defaults of absent fields): the level rules of C08 are part of this property
     from . import C08 as _C08, C08_levels as _C08L
     _C08L.run(ctx, w, _C08.load_model(), T.version_rules(ctx, w, ["authorization"]))
+    # iterative_auth_check takes the entries named by auth_types_for_event from the partial state: "authorised against the partial state" holds only
+    # if that selection is the specification's, so the auth-event selection rules of C09 are part of this check
+    from . import C09 as _C09
+    _C09.run(ctx)
 
     # ---- set algebra -----------------------------------------------------------------------------------------------------
     ctx.rule("C07.sets", "get_auth_chain_diff keeps an id iff it is in fewer sets than there are sets; separate: unconflicted iff the (key, id) pair occurs in every state set")
